@@ -948,9 +948,21 @@ func (ro *RedisOutput) sendBisyncPipeline(replayWait usync.WaitCloser, runID str
 		receiveDone <- err
 	})
 
-	sendErr := ro.dispatchBisyncPipeline(replayWait, conn, runID, unitBuf, inflight)
+	orphan, sendErr := ro.dispatchBisyncPipeline(replayWait, conn, runID, unitBuf, inflight)
 	close(inflight)
 	receiveErr := <-receiveDone
+	// Whatever made the sender or the receiver stop, no unit this loop has SENT may still be executed by the
+	// target after the loop has returned: the caller starts again in the same process (StartPoint reads and cleans
+	// the commit journal, the next loop re-sends from there), and a transaction of THIS loop executed after that
+	// is applied after newer writes of the same keys. The sender runs ahead of the receiver by up to the window:
+	// wait for the reply of every unit that was sent and not received yet (or for the connection to fail), in the
+	// order they were sent. The receiver has returned, nothing else reads this connection.
+	for dispatched := range inflight {
+		_, _ = dispatched.batcher.Receive()
+	}
+	if orphan != nil {
+		_, _ = orphan.batcher.Receive()
+	}
 	if sendErr != nil {
 		replayWait.Close(sendErr)
 		return sendErr
@@ -966,18 +978,21 @@ func (ro *RedisOutput) sendBisyncPipeline(replayWait usync.WaitCloser, runID str
 	return replayWait.Error()
 }
 
-func (ro *RedisOutput) dispatchBisyncPipeline(replayWait usync.WaitCloser, conn client.Redis, runID string, unitBuf chan *bisyncReplayUnit, inflight chan<- bisyncPipelineDispatch) error {
+// dispatchBisyncPipeline sends units until the input ends, the run is closed or a unit cannot be sent. A unit that
+// was sent but could not be handed to the receiver any more (the run was closed meanwhile) is returned: its reply is
+// still to come on the connection.
+func (ro *RedisOutput) dispatchBisyncPipeline(replayWait usync.WaitCloser, conn client.Redis, runID string, unitBuf chan *bisyncReplayUnit, inflight chan<- bisyncPipelineDispatch) (*bisyncPipelineDispatch, error) {
 	for {
 		select {
 		case unit, ok := <-unitBuf:
 			if !ok {
-				return nil
+				return nil, nil
 			}
 			record, batcher, queued, err := ro.dispatchBisyncUnit(conn, runID, unit, false)
 			if err != nil {
 				bisyncTxnCommitCounter.Add(1, ro.cfg.InputName, "error")
 				failCounter.Add(float64(len(unit.Commands)), ro.cfg.InputName)
-				return fmt.Errorf("scheme1 pipeline dispatch failed: unitSeq(%d), slot(%d), offsets(%d,%d), cmds(%s), err(%w)", unit.Seq, unit.Slot, unit.StartOffset, unit.EndOffset, bisyncCommandSummary(unit.Commands), err)
+				return nil, fmt.Errorf("scheme1 pipeline dispatch failed: unitSeq(%d), slot(%d), offsets(%d,%d), cmds(%s), err(%w)", unit.Seq, unit.Slot, unit.StartOffset, unit.EndOffset, bisyncCommandSummary(unit.Commands), err)
 			}
 			dispatched := bisyncPipelineDispatch{
 				unit:    unit,
@@ -988,10 +1003,10 @@ func (ro *RedisOutput) dispatchBisyncPipeline(replayWait usync.WaitCloser, conn 
 			select {
 			case inflight <- dispatched:
 			case <-replayWait.Done():
-				return replayWait.Error()
+				return &dispatched, replayWait.Error()
 			}
 		case <-replayWait.Done():
-			return replayWait.Error()
+			return nil, replayWait.Error()
 		}
 	}
 }
